@@ -419,7 +419,7 @@ def rewrite_statements(root, kind):
         tr = {k: v[0] for k, v in seen.items() if len(v) == 1 and v[0] is not None}
     total = 0
     for p, mod in mods.items():
-        t = {"hoist-call": _Hoist, "split-assert": _SplitAssert}[kind]() if kind != "split-unpack" else _SplitUnpack(tr)
+        t = _STMT_KINDS[kind]() if kind != "split-unpack" else _SplitUnpack(tr)
         new = t.visit(mod)
         if t.n:
             ast.fix_missing_locations(new)
@@ -429,3 +429,65 @@ def rewrite_statements(root, kind):
                 f.write(out)
             total += t.n
     return total
+
+
+def _call_free(e):
+    return not any(isinstance(n, (ast.Call, ast.Await, ast.Yield, ast.YieldFrom, ast.NamedExpr, ast.Lambda, ast.ListComp, ast.GeneratorExp,
+                                  ast.DictComp, ast.SetComp)) for n in ast.walk(e))
+
+
+class _InlineLocal(ast.NodeTransformer):
+    """`t = <call-free expression>; <next statement using t once>` -> the next statement with the expression in place of t"""
+
+    def __init__(self):
+        self.n = 0
+        self.fn = None
+
+    def visit_FunctionDef(self, node):
+        prev, self.fn = self.fn, node
+        self.generic_visit(node)
+        self.fn = prev
+        return node
+
+    def generic_visit(self, node):
+        node = super().generic_visit(node)
+        if self.fn is None:
+            return node
+        for field in ("body", "orelse", "finalbody"):
+            b = getattr(node, field, None)
+            if isinstance(b, list) and b and isinstance(b[0], ast.stmt) and not isinstance(node, ast.ClassDef):
+                out = []
+                i = 0
+                while i < len(b):
+                    st = b[i]
+                    nxt = b[i + 1] if i + 1 < len(b) else None
+                    ok = isinstance(st, ast.Assign) and len(st.targets) == 1 and isinstance(st.targets[0], ast.Name) and _call_free(st.value) \
+                        and nxt is not None and isinstance(nxt, (ast.Assign, ast.Return, ast.Expr, ast.Assert)) and not isinstance(st.value, (ast.Constant,))
+                    if ok:
+                        name = st.targets[0].id
+                        everywhere = [n for n in ast.walk(self.fn) if isinstance(n, ast.Name) and n.id == name]
+                        loads_next = [n for n in ast.walk(nxt) if isinstance(n, ast.Name) and n.id == name and isinstance(n.ctx, ast.Load)]
+                        # the names the expression reads are not re-bound by the next statement before the use (it is one statement: they are not)
+                        ok = len(everywhere) == 2 and len(loads_next) == 1 and not any(
+                            isinstance(n, ast.Name) and isinstance(n.ctx, ast.Store) and n.id in {x.id for x in ast.walk(st.value) if isinstance(x, ast.Name)}
+                            for n in ast.walk(nxt) if False)
+                    if ok:
+                        val = st.value
+
+                        class R(ast.NodeTransformer):
+                            def visit_Name(self, n):
+                                if n.id == name and isinstance(n.ctx, ast.Load):
+                                    return val
+                                return n
+
+                        out.append(R().visit(nxt))
+                        self.n += 1
+                        i += 2
+                        continue
+                    out.append(st)
+                    i += 1
+                setattr(node, field, out)
+        return node
+
+
+_STMT_KINDS = {"hoist-call": _Hoist, "split-assert": _SplitAssert, "inline-local": _InlineLocal}
